@@ -906,6 +906,9 @@ func TestCheck(t *testing.T) {
 			r.Infra("replay: %v", err)
 			r.Finish()
 		}
+		if c.replayWire(raw) { // a case of part (e), wire_test.go (finishes the run itself)
+			return
+		}
 		var f struct {
 			Replay Spec `json:"replay"`
 		}
@@ -925,7 +928,7 @@ func TestCheck(t *testing.T) {
 	for _, part := range []struct {
 		name string
 		f    func()
-	}{{"a", c.partA}, {"b", c.partB}, {"c", c.partC}, {"d", c.partD}} {
+	}{{"a", c.partA}, {"b", c.partB}, {"c", c.partC}, {"d", c.partD}, {"e", c.partWire}} {
 		t0 := time.Now()
 		if part.name == "c" {
 			c.deadline = c.deadline.Add(-10 * time.Second) // keep room for the small part d
